@@ -268,7 +268,9 @@ func (r *Recorder) Report(t Fataler, v Verdict, c *Case) bool {
 		slot = "case"
 	}
 	path := filepath.Join(r.env.FoundDir, fmt.Sprintf("%s-%s-seed%d-shard%d.txtar", r.env.ID, slot, r.env.Seed, r.env.Shard))
-	if err := SaveCase(path, c); err != nil {
+	if r.env.Replay != "" {
+		path = r.env.Replay // re-judging an existing archive: nothing new to save
+	} else if err := SaveCase(path, c); err != nil {
 		path = "unsaved:" + err.Error()
 	}
 	r.mu.Lock()
